@@ -19,7 +19,7 @@ from . import source as SRC  # noqa: E402
 from .api import REGISTRY, LemmaTask, VerifyTask  # noqa: E402
 from .engine import Config  # noqa: E402
 
-KNOWN_FILE = os.path.join(ROOT, "known_findings.jsonl")
+KNOWN_FILE = os.environ.get("VERIF_KNOWN") or os.path.join(ROOT, "known_findings.jsonl")  # VERIF_KNOWN: dev/testing only
 
 
 def load_contracts():
